@@ -131,17 +131,17 @@ def replay_file(run, path, quiet=False):
 def main():
     run = Run("C01")
     run.rule = ("random histories of 1..25 mutating calls (set of well/ill-shaped tensors and nested tensordicts incl. auto-created keys, batch_size and names "
-                "assignment, del_, rename_key_, create_nested, clear) issued on the root or through a nested handle, on trees of depth <= 3, batch rank 0-3 with "
+                "assignment, del_, rename_key_, create_nested, clear, pop, popitem, setdefault, refine_names, update with dict payloads; auto_batch_size_ on the root) issued on the root or through a nested handle, on trees of depth <= 3, batch rank 0-3 with "
                 "dims in {0,1,2,3}, cpu/meta/no device, named/unnamed; a case is one (pre-state, op) pair")
     run.trusted += [
         "Model/C01Coherence.lean: hand transcription of _validate_value/_set_tuple/_batch_size_setter/_check_new_batch_size/names setter/_rename_subtds/"
-        "rename_key_/create_nested (each function cites its source); tied to the code by the per-step correspondence of this check",
+        "rename_key_/create_nested/_set_max_batch_size (each function cites its source); tied to the code by the per-step correspondence of this check",
         "harness/c01_ops.py: generators, snapshot, walk_coherent (the oracle)",
     ]
     run.assumptions += [
         "values of leaves are not modelled (C02/C03/C07); `.to(device)` is modelled as: result on the requested device, except out of the meta device (raises)",
         "out of scope (property text): shrinking / altering a child's batch size through a direct handle so that it no longer extends its parent's",
-        "locking, memmap/shared state are outside the model; lazy stacks / tensorclass / non-tensor entries / in-place and index writes / update are oracle-only",
+        "locking, memmap/shared state are outside the model; lazy stacks / tensorclass / non-tensor entries / in-place and index writes / update(update_batch_size=True) are oracle-only",
     ]
     run.build_and_audit(["TdVerif.Props.C01"])
     drv = run.driver()
